@@ -530,6 +530,28 @@ macro_rules! variants {
     }};
 }
 
+/// the same for two operands of one type: additionally with both operands one and the same object
+macro_rules! variants_same {
+    ($a:expr, $b:expr, $op:tt, $enc:expr) => {{
+        let (a, b) = ($a, $b);
+        let r1 = $enc(&(&a $op &b));
+        // equal operands may also be one and the same object (`&x - &x`): the result is that of two equal values
+        if $enc(&a) == $enc(&b) {
+            let r0 = $enc(&(&a $op &a));
+            if r0 != r1 { return format!("variant-mismatch:aliased:{}:{}", hex(&r0), hex(&r1)) }
+            let both = [a.clone(), a.clone()];
+            let r00 = $enc(&(&both[0] $op &both[0]));
+            if r00 != r1 { return format!("variant-mismatch:aliased-element:{}:{}", hex(&r00), hex(&r1)) }
+        }
+        let r2 = $enc(&(a.clone() $op &b));
+        let r3 = $enc(&(&a $op b.clone()));
+        let r4 = $enc(&(a.clone() $op b.clone()));
+        if r1 == r2 && r2 == r3 && r3 == r4 { hex(&r1) } else {
+            format!("variant-mismatch:{}:{}:{}:{}", hex(&r1), hex(&r2), hex(&r3), hex(&r4))
+        }
+    }};
+}
+
 fn dhandle(h: &str) -> Option<DecryptHandle> {
     DecryptHandle::from_bytes(&unhex(h)?)
 }
@@ -625,33 +647,33 @@ pub fn op_elg(a: &[&str]) -> String {
                 if (a == b) != (a.to_bytes() == b.to_bytes()) || a.as_bytes() != &a.to_bytes() { return "variant-mismatch:eq".into() }
                 let (sa, sb) = (ElGamalSecretKey::from(*a.get_scalar()), ElGamalSecretKey::from(*b.get_scalar()));
                 if (sa == sb) != (sa.as_bytes() == sb.as_bytes()) || sa != sa.clone() { return "variant-mismatch:eq-secret".into() }
-                variants!(a, b, +, |o: &PedersenOpening| o.to_bytes().to_vec())
+                variants_same!(a, b, +, |o: &PedersenOpening| o.to_bytes().to_vec())
             }
-            ("opn", "sub") => { let (Some(a), Some(b)) = (opening(x), opening(y)) else { return bad() }; variants!(a, b, -, |o: &PedersenOpening| o.to_bytes().to_vec()) }
+            ("opn", "sub") => { let (Some(a), Some(b)) = (opening(x), opening(y)) else { return bad() }; variants_same!(a, b, -, |o: &PedersenOpening| o.to_bytes().to_vec()) }
             ("opn", "mul") => {
                 let (Some(a), Some(b)) = (opening(x), scalar(y)) else { return bad() };
                 let l = variants!(a.clone(), b, *, |o: &PedersenOpening| o.to_bytes().to_vec());
                 let r = variants!(b, a, *, |o: &PedersenOpening| o.to_bytes().to_vec());
                 if l == r { l } else { format!("variant-mismatch:{}:{}", l, r) }
             }
-            ("cmt", "add") => { let (Some(a), Some(b)) = (commitment(x), commitment(y)) else { return bad() }; variants!(a, b, +, |o: &PedersenCommitment| o.to_bytes().to_vec()) }
-            ("cmt", "sub") => { let (Some(a), Some(b)) = (commitment(x), commitment(y)) else { return bad() }; variants!(a, b, -, |o: &PedersenCommitment| o.to_bytes().to_vec()) }
+            ("cmt", "add") => { let (Some(a), Some(b)) = (commitment(x), commitment(y)) else { return bad() }; variants_same!(a, b, +, |o: &PedersenCommitment| o.to_bytes().to_vec()) }
+            ("cmt", "sub") => { let (Some(a), Some(b)) = (commitment(x), commitment(y)) else { return bad() }; variants_same!(a, b, -, |o: &PedersenCommitment| o.to_bytes().to_vec()) }
             ("cmt", "mul") => {
                 let (Some(a), Some(b)) = (commitment(x), scalar(y)) else { return bad() };
                 let l = variants!(a, b, *, |o: &PedersenCommitment| o.to_bytes().to_vec());
                 let r = variants!(b, a, *, |o: &PedersenCommitment| o.to_bytes().to_vec());
                 if l == r { l } else { format!("variant-mismatch:{}:{}", l, r) }
             }
-            ("hdl", "add") => { let (Some(a), Some(b)) = (dhandle(x), dhandle(y)) else { return bad() }; variants!(a, b, +, |o: &DecryptHandle| o.to_bytes().to_vec()) }
-            ("hdl", "sub") => { let (Some(a), Some(b)) = (dhandle(x), dhandle(y)) else { return bad() }; variants!(a, b, -, |o: &DecryptHandle| o.to_bytes().to_vec()) }
+            ("hdl", "add") => { let (Some(a), Some(b)) = (dhandle(x), dhandle(y)) else { return bad() }; variants_same!(a, b, +, |o: &DecryptHandle| o.to_bytes().to_vec()) }
+            ("hdl", "sub") => { let (Some(a), Some(b)) = (dhandle(x), dhandle(y)) else { return bad() }; variants_same!(a, b, -, |o: &DecryptHandle| o.to_bytes().to_vec()) }
             ("hdl", "mul") => {
                 let (Some(a), Some(b)) = (dhandle(x), scalar(y)) else { return bad() };
                 let l = variants!(a, b, *, |o: &DecryptHandle| o.to_bytes().to_vec());
                 let r = variants!(b, a, *, |o: &DecryptHandle| o.to_bytes().to_vec());
                 if l == r { l } else { format!("variant-mismatch:{}:{}", l, r) }
             }
-            ("ct", "add") => { let (Some(a), Some(b)) = (ctbytes(x), ctbytes(y)) else { return bad() }; variants!(a, b, +, |o: &ElGamalCiphertext| o.to_bytes().to_vec()) }
-            ("ct", "sub") => { let (Some(a), Some(b)) = (ctbytes(x), ctbytes(y)) else { return bad() }; variants!(a, b, -, |o: &ElGamalCiphertext| o.to_bytes().to_vec()) }
+            ("ct", "add") => { let (Some(a), Some(b)) = (ctbytes(x), ctbytes(y)) else { return bad() }; variants_same!(a, b, +, |o: &ElGamalCiphertext| o.to_bytes().to_vec()) }
+            ("ct", "sub") => { let (Some(a), Some(b)) = (ctbytes(x), ctbytes(y)) else { return bad() }; variants_same!(a, b, -, |o: &ElGamalCiphertext| o.to_bytes().to_vec()) }
             ("ct", "mul") => {
                 let (Some(a), Some(b)) = (ctbytes(x), scalar(y)) else { return bad() };
                 let l = variants!(a, b, *, |o: &ElGamalCiphertext| o.to_bytes().to_vec());
